@@ -1055,7 +1055,8 @@ def rules(tier):
             # fix 718673a: the save made on exhaustion must not name the last pre-terminal as still to do
             ('C08.R28', r28_exhausted_session_restores_nothing),
             # C08-fa: _find_prob(new_parent) without base_prob in is_parent_around
-            ('C08.R29', r29_find_prob_scaled)]
+            ('C08.R29', r29_find_prob_scaled),
+            ('C08.R30', _shared_rule('plumbing', 'ruleset_info_keys'))]
 
 
 META = {
